@@ -573,7 +573,12 @@ def run_real(root, cfg, exp, r):
         obs["exc"] = repr(e)
     if conv is not None:
         with patched(root, cfg, S, r.get("cpos", 0)):
-            invoke(lambda: conv.process(overwrite=bool(r["ow"])), obs)
+            if r.get("direct21") and kind == 1:
+                # what pipelines do for probes whose shank map is not that of an NP2.1: the documented
+                # assert_shanks=False variant (all channels of the file in on-disk order)
+                invoke(lambda: conv._process_NP21(overwrite=bool(r["ow"]), assert_shanks=False), obs)
+            else:
+                invoke(lambda: conv.process(overwrite=bool(r["ow"])), obs)
         obs["checked"] = int(bool(getattr(conv, "check_completed", False)))
         if obs["outcome"] < 200:
             ae = getattr(conv, "already_exists", None)
@@ -769,6 +774,35 @@ def measure_sync_copy(base, cfg, exp):
     finally:
         release(conv)
         shutil.rmtree(d, ignore_errors=True)
+
+
+def probe_nsamples(base, cfg, exp):
+    """init_params(nsamples=N) with N shorter than the recording, post_check and delete_original: is the
+    original kept unless every sample is in the shank files?  Implementation only (the model has no
+    'first N samples' file state); reported through the oracle."""
+    from neuropixel import NP2Converter
+    kind, fixture, n, w, compressed = CONFIGS[cfg]
+    d = base / cfg / "nsprobe"
+    shutil.copytree(base / cfg / "init", d)
+    out = {}
+    conv = None
+    try:
+        conv = NP2Converter(owner_path(d, 1, 0), post_check=True, delete_original=True, compress=False)
+        conv.init_params(nsamples=NWINDOW, nwindow=NWINDOW)
+        try:
+            out["status"] = int(conv.process())
+        except Exception as e:
+            out["status"] = repr(e)
+        st = st_of(cfg, observe(d.resolve(), n, exp))
+        out["orig"] = st[10]
+        st2 = dict(st)
+        st2[10] = st2[11] = 0
+        out["shanks_complete"] = int(recoverable(cfg, st2))
+    finally:
+        if conv is not None:
+            release(conv)
+        shutil.rmtree(d, ignore_errors=True)
+    return out
 
 
 def enc_obs(o):
@@ -1157,7 +1191,8 @@ def reference_job(arg):
         exp = build_reference(base, cfg)
         (base / cfg / "exp.json").write_text(json.dumps(exp))
         m = measure_sync_copy(base, cfg, exp) if cfg == "np24s4w2" else None
-        return ("ok", m, exp.get("recon_error"))
+        ns = probe_nsamples(base, cfg, exp) if cfg == "np24s1w3" else None
+        return ("ok", m, exp.get("recon_error"), ns)
     except AssertionError as e:
         return ("assert", str(e))
     except BaseException as e:       # noqa
@@ -1346,6 +1381,9 @@ def make_tasks(ctx, base):
         add("np21w2c", prefix, [mkrun(t=-1, comp=1, ow=1), mkrun(t=-1, comp=1, ow=0)][:2 if th else 1],
             "all" if th else 2, fo)
     add("np1w1", [], T if th else rng.sample(T, 2), "none", 1)
+    # _process_NP21(assert_shanks=False): same steps, all channels of the file taken in on-disk order
+    add("np21w2", [], [dict(mkrun(t=-1, post=0, dele=0, comp=1), direct21=1),
+                       dict(mkrun(t=-1, post=0, dele=0, comp=0, ow=1), direct21=1)], "all" if th else 3, 1 if th else 0.5)
     # init_params(nshank=[subset]) / extra=: only some shanks are written; with post_check the comparison
     # with the full-width original must refuse, whatever delete_original / compress say
     for m in ((0b0011, 0b0100, 0b1110, 0b1111) if th else (0b0011, 0b1000, 0b1111)):
@@ -1458,6 +1496,12 @@ def run(ctx):
             case = {"cfg": cfg, "runs": [mkrun(post=1, dele=0, comp=1)]}
             if tag == "ok" and val[0] == "ok":
                 ok_cfgs.append(cfg)
+                if len(val) > 3 and val[3] and val[3].get("orig") == 0 and not val[3].get("shanks_complete"):
+                    ctx.fail("init_params(nsamples=%d) on a %d-sample recording with post_check and delete_original: "
+                             "process() returned %s and removed the original although the shank files hold only the "
+                             "first %d samples" % (NWINDOW, NS_OF_W[CONFIGS[cfg][3]], val[3].get("status"), NWINDOW),
+                             {"cfg": cfg, "nsamples": NWINDOW, "runs": [mkrun(post=1, dele=1, comp=0)]},
+                             {"clause": "nsamples_partial_delete", "kind": 0})
                 if val[2]:
                     ctx.fail("split -> NP2Reconstructor -> conversion of the recovered original: %s" % val[2],
                              {"cfg": cfg, "runs": [mkrun(post=1, dele=1, comp=0), mkrun(t=100), mkrun(t=101, comp=0),
